@@ -1,5 +1,5 @@
 """C05 Persisted state is never older than what was published."""
-from mirlib import AnchorMissing, decision_paths, describe_operand, describe_place, describe_rvalue, dom_guards, op_place, path_str, _suffix_match
+from mirlib import edge_label, switch_desc, AnchorMissing, decision_paths, describe_operand, describe_place, describe_rvalue, dom_guards, op_place, path_str, _suffix_match
 from rules.common import id_allocation_rule, aggregates, callers_by_name, crate_aggregates, owner_def, where
 
 META = {
@@ -215,21 +215,27 @@ def run(ctx):
         sends = [c for c in ri.calls if c.via_name == "send"]
         if not sends:
             raise AnchorMissing("run_item_initializer: no send call")
-        # locate the switch on the awaited result: blocks constrained to Ok
-        okb = None
-        for si in ri.switches_on(lambda p, si: si["kind"] == "disc" and si.get("adt", "").endswith("result::Result")):
-            ve = ri.variant_edges(si["block"])
-            if ve and "Ok" in ve and "Err" in ve and all(ri.dominates(inits[0].block, si["block"]) for _ in [0]):
-                okb = (ve["Ok"], ve["Err"])
-                break
-        if okb is None:
-            r.bad("run_item_initializer/result-match", where(ri), "no match on the result of initialize(..).await found")
+        # the acknowledgement lies on the Ok outcome of the awaited initialisation - whether the result is matched or passed on with `?`
+        err_edges = []
+        for si in ri.switches_on(lambda p, si: si["kind"] == "disc"):
+            if not ri.dominates(inits[0].block, si["block"]):
+                continue
+            d_ = switch_desc(ri, si["block"]) or ""
+            if "initialize(" not in d_:
+                continue
+            for s_ in ri.succ[si["block"]]:
+                if edge_label(ri, si["block"], s_) in ("Err", "Break"):
+                    err_edges.append(s_)
+        for s in sends:
+            g = dom_guards(ri, s.block)
+            on_ok = any(d.startswith("disc(") and "initialize(" in d and l == "Ok" for d, l, _ in g)
+            r.check(on_ok and ri.dominates(inits[0].block, s.block), "run_item_initializer/ack-after-init", s.loc(),
+                    "send(StoreInitialized) is dominated by initialize(..) and by the Ok edge of its result",
+                    "send(StoreInitialized) can run without a successful initialize")
+        if not err_edges:
+            r.bad("run_item_initializer/result-match", where(ri), "the result of initialize(..).await is not examined")
         else:
-            for s in sends:
-                r.check(ri.dominates(okb[0], s.block) and ri.dominates(inits[0].block, s.block), "run_item_initializer/ack-after-init", s.loc(),
-                        "send(StoreInitialized) is dominated by initialize(..) and by the Ok edge of its result",
-                        "send(StoreInitialized) can run without a successful initialize")
-            r.check(not (ri.reachable_from([okb[1]]) & {s.block for s in sends}), "run_item_initializer/err-no-ack", where(ri),
+            r.check(not (ri.reachable_from(err_edges) & {s.block for s in sends}), "run_item_initializer/err-no-ack", where(ri),
                     "Err edge of initialize returns without acknowledging")
 
     # ---- R7 transience -----------------------------------------------------------------------
